@@ -1,3 +1,4 @@
 import DosModel.Model.P2PSym
 import DosModel.Gen.P2PFlow
-def main : IO Unit := Dos.lineLoop (Dos.P2PSym.driverStep Dos.Gen.decodeChecksAnything)
+def main : IO Unit :=
+  Dos.lineLoop (Dos.P2PSym.driverStep Dos.Gen.decodeChecksAnything Dos.Gen.runKeepsDrainingErrors)
